@@ -132,25 +132,6 @@ class C04(core.Prop):
     def sample(self, shape, cinp):
         return cinp['text']
 
-    def classify(self, shape, cinp, cobs, clauses):
-        # known finding: a branch that closes directly after a nested branch ('))').
-        # Signature: the failing text contains '))' and the equivalent spelling
-        # without it (last nested branch written as chain continuation, same
-        # hole values) is read correctly by the real reader.
-        if '))' not in cinp['text']:
-            return None
-        alt = gg.no_double_close(shape)
-        text, _ = gg.render(alt, cinp['holes'])
-        if '))' in text:
-            return None
-        from cgsmiles.read_cgsmiles import read_cgsmiles
-        obs = core.guard(read_cgsmiles, '{' + text + '}')
-        if obs[0] != 'ok':
-            return None
-        nodes, edges = gg.denote(alt, cinp['holes'])
-        bad = core.eval_clauses(gg.graph_matches(obs[1], nodes, edges))
-        return None if bad else 'C04-double-branch-close'
-
     MUTANTS = {
         'ring_order_reset': {'read_cgsmiles': (
             "                    ring_marker = \"\"\n                    ring_bond_order = default_bond_order\n            # we found bond_order",
